@@ -207,12 +207,12 @@ def build_case(skeleton, globals_present, idx):
     decl_lines = []
     decl_undef = []
     for gname, pname, body, und in g.decls:
-        real = gname.replace("CASE", str(idx))
+        real = gname.replace("g_CASE_", f"g_{idx}_")
         start = len(decl_lines)
         decl_lines.append(f"{real} :: (comptime {pname}: i32) {{")
         for (li, nm) in und:
             decl_undef.append((start + 1 + li, nm))
-        decl_lines += body
+        decl_lines += [l.replace("g_CASE_", f"g_{idx}_") for l in body]
         decl_lines.append("}")
     body = [l.replace("g_CASE_", f"g_{idx}_") for l in g.lines]
     key = f"{'+'.join(sorted(globals_present)) or 'none'}/{skel_str(skeleton)}"
@@ -344,7 +344,7 @@ def run(tier, seed):
         "compilations": compiles,
         "samples": sample,
     }
-    core.finish("C05", tier, seed, started, coverage, all_mism, None, assumptions=[
+    core.finish("C05", tier, seed, started, coverage, all_mism, explains, assumptions=[
         "uses inside a lambda or comptime body of a name bound in the creating function's body are not generated",
     ])
 
@@ -355,3 +355,11 @@ def depth_of(items):
         if it[0] == "child":
             d = max(d, 1 + depth_of(it[2]))
     return d
+
+
+def explains(model, m):
+    if model == "comptime-in-generic-todo":
+        # a comptime block inside the body of a function with comptime parameters
+        return m.kind == "compiler-panic" and re.search(r"cparam:\w\([^()]*(\([^()]*\)[^()]*)*comptime:", m.case.key) is not None \
+            and "not yet implemented" in (m.detail or "")
+    return False
